@@ -33,7 +33,7 @@ class Unsupported(Exception):
     pass
 
 
-IDENT = re.compile(r"^[A-Za-z0-9_:.\-{}/#+ <>()\[\]]*$")
+IDENT = re.compile(r"^[A-Za-z0-9_:.\-{}/#+ <>()\[\]=]*$")
 
 
 def q(s):
@@ -176,6 +176,7 @@ class InitScan:
         self.super_calls = 0
         self.forwards = {}    # parameter -> keyword under which it is handed to the parent constructor through **kwargs
         self.helpers = {a: [] for a in argnames}   # parameter -> [(method, key, guards)]: handed unchanged to self.method(...) / kwargs[key]
+        self.calls = []       # every self.method(...) statement: (method, guards)
         body = fn.body
         if body and isinstance(body[0], ast.Expr) and isinstance(body[0].value, ast.Constant) and isinstance(body[0].value.value, str):
             body = body[1:]
@@ -191,6 +192,7 @@ class InitScan:
         if not (isinstance(c, ast.Call) and isinstance(c.func, ast.Attribute) and isinstance(c.func.value, ast.Name)
                 and c.func.value.id == "self"):
             return False
+        self.calls.append((c.func.attr, list(guards)))
         for i, v in enumerate(c.args):
             if isinstance(v, ast.Name) and v.id in self.helpers:
                 self.helpers[v.id].append((c.func.attr, "#%d" % i, list(guards)))
@@ -273,6 +275,46 @@ class InitScan:
                 self.count_other(s)
             else:
                 raise Unsupported("statement kind %s in __init__: %s" % (type(s).__name__, ast.unparse(s)[:80]))
+
+
+def under_do_init(guards):
+    """is the statement executed only for a NEW element (`if self._do_init:` somewhere above it)?"""
+    for test, pol in guards:
+        if test == "loop":
+            continue
+        for c, p in conj(test, pol):
+            if (isinstance(c, ast.Attribute) and isinstance(c.value, ast.Name) and c.value.id == "self" and c.attr == "_do_init" and p):
+                return True
+    return False
+
+
+WRITERS = re.compile(r"^(set_|append|insert|delete|clear|extend|del_|add_|strip|replace|fill|remove)")
+
+
+def writes_on_wrap(cls):
+    """statements of the __init__ chain of `cls` that run also when an EXISTING node is wrapped (not under `_do_init`) and that
+    write to the element: assignments through a property that has a setter, calls of public mutators (set_*, append, ...).
+    Plain Python attributes (self.x = None) and private helpers are not writes to the element as far as this scan knows."""
+    from odfdo.element import Element
+    out = []
+    for k in cls.__mro__:
+        if k is Element or k is object or "__init__" not in k.__dict__:
+            continue
+        fn, _f = find_init(k)
+        a = fn.args
+        names = [p.arg for p in a.args[1:] + a.kwonlyargs]
+        try:
+            sc = InitScan(fn, names)
+        except Unsupported:
+            raise
+        for (target, value, guards) in sc.stores:
+            d = inspect.getattr_static(cls, target, None)
+            if not under_do_init(guards) and isinstance(d, property) and d.fset is not None:
+                out.append("%s.__init__: self.%s = ..." % (k.__name__, target))
+        for (m, guards) in sc.calls:
+            if not under_do_init(guards) and WRITERS.match(m):
+                out.append("%s.__init__: self.%s(...)" % (k.__name__, m))
+    return out
 
 
 def find_init(owner):
@@ -539,7 +581,7 @@ def main():
     if "Element" in cnames:
         raise Unsupported("the base class Element is registered under a tag")
     info = dict(repo=str(REPO), namespaces=ns, registrations=tr["calls"], live=final_live, classes=[])
-    reg_lines, tag_lines, prop_lines, decl_lines, ctor_lines = [], [], [], [], []
+    reg_lines, tag_lines, prop_lines, decl_lines, ctor_lines, wrap_write_lines = [], [], [], [], [], []
     for qn, cn, mod in tr["calls"]:
         reg_lines.append("  (%s, %s)" % (q(qn), q(cn)))
     for c in classes:
@@ -565,11 +607,14 @@ def main():
         else:
             fn, init_file = find_init(owner)
             args, pinned = classify(c, owner, fn, gp)
+        ww = writes_on_wrap(c)
+        for w_ in ww:
+            wrap_write_lines.append("  (%s, %s)" % (q(c.__name__), q(w_)))
         all_props = sorted(n for n in dir(c) if isinstance(inspect.getattr_static(c, n, None), property))
         info["classes"].append(dict(name=c.__name__, module=c.__module__, own_tag=own, init_owner=owner.__name__,
                                     init_file=str(Path(init_file).relative_to(REPO)) if str(init_file).startswith(str(REPO)) else init_file,
                                     generic_props={k: list(v) for k, v in gp.items()}, declared=declared,
-                                    properties=all_props, args=args, pinned=pinned,
+                                    properties=all_props, args=args, pinned=pinned, writes_on_wrap=ww,
                                     tags=[t for t, k in _class_registry.items() if k is c], loser=c not in registered))
         tag_lines.append("  (%s, %s)" % (q(c.__name__), q(own)))
         for pn in sorted(gp):
@@ -624,7 +669,9 @@ def main():
             + ";\n".join("  (%s, (%s, (%s, %s)))" % (q(a), q(b), q(c), q(d)) for a, b, c, d in sites) + "\n].", ""]
     ct = [hdr, "From Coq Require Import String List ZArith. Import ListNotations. Open Scope string_scope.",
           "Require Import Attr.", "",
-          "Definition ctors : list centry := [\n" + ";\n".join(ctor_lines) + "\n].", ""]
+          "Definition ctors : list centry := [\n" + ";\n".join(ctor_lines) + "\n].", "",
+          "(* statements of an __init__ chain that write to the element also when an existing node is merely wrapped: (class, statement) *)",
+          "Definition wrap_writes : list (string * string) := [\n" + ";\n".join(wrap_write_lines) + "\n].", ""]
     new_reg, new_ct = "\n".join(reg), "\n".join(ct)
     for f, txt in ((TH / "Gen_Registry.v", new_reg), (TH / "Gen_Ctors.v", new_ct)):
         if not f.exists() or f.read_text() != txt:      # keep the time stamp when nothing changed (make)
